@@ -82,8 +82,9 @@ def gen_images_doc(rng, tier, n):
                 k += 1
                 cell.append(simple_image(rng, k, a, v))
             images[v][a] = cell
-    srcful = [v for v in variants if rng.random() < 0.65]
-    if not srcful and rng.random() < 0.8:
+    p_src = 0.65 if ver in ("1.0", "1.1") else 0.2
+    srcful = [v for v in variants if rng.random() < p_src]
+    if not srcful and ver in ("1.0", "1.1") and rng.random() < 0.8:
         srcful = [rng.choice(variants)]
     for v in srcful:
         cell = []
@@ -265,11 +266,27 @@ def gen_rpms03_doc(rng, tier, n):
             manifest[v][a][kk][first]["type"] = "source"          # a source entry with srpm_nevra: refused by add
             inject = "source-type"
             break
+    collision = False
+    if inject is None and rng.random() < 0.06:
+        # correspondence only: a second text of ONE source package in the same table (`...src` and `...src.rpm`), each with its own
+        # src entry - both write [variant][arch][K][K], the later one stays (C10_rpms_refile_collision_witness)
+        v = rng.choice(variants)
+        a = next(iter(a for a in manifest[v] if a != "src"))
+        ks = [kk for kk in manifest[v][a] if not kk.endswith(".rpm")]
+        if ks:
+            kk = rng.choice(ks)
+            twin = kk + ".rpm"
+            canon[twin] = canon[kk]
+            manifest[v][a][twin] = {"twin-0:1-1.noarch": {"type": "package", "path": "twin.rpm", "sigkey": None}}
+            canon["twin-0:1-1.noarch"] = "twin-0:1-1.noarch"
+            manifest[v].setdefault("src", {})[twin] = {"path": "twin.src.rpm", "sigkey": "AA"}
+            collision = True
+            inject = "canonical-collision"
     hdr = {"version": ver}
     suffix, respin = rng.choice(["", ".n", ".t"]), rng.choice([0, 1, 3])
     cid = "%s-%s-20140507%s.%d" % (rng.choice(["Fedora", "RHEL"]), rng.choice(["20", "7.0"]), suffix, respin)
     comp = {"id": cid, "type": {"": "production", ".n": "nightly", ".t": "test"}[suffix], "date": "20140507", "respin": respin}
-    return {"doc": {"header": hdr, "payload": {"compose": comp, "manifest": manifest}}, "canon": canon, "inject": inject}
+    return {"doc": {"header": hdr, "payload": {"compose": comp, "manifest": manifest}}, "canon": canon, "inject": inject, "collision": collision}
 
 
 SIGKEYS_SIGNED = ["fd431d51", "FD431D51", "AbCd1234", "34EC9CBA", "f5282ee4"]
@@ -351,6 +368,14 @@ class C10(Prop):
                 op["arch"] = a
                 ops.append(op)
             yield {"op": "rpm_history", "sweep": True, "args": {"ops": strip(ops)}}
+        # ---- every shipped images fixture (src_move_before.json is the 1.1 document with a src entry)
+        import glob, os
+        for path in sorted(glob.glob(os.path.join(checklib.REPO, "tests", "images", "*.json"))):
+            try:
+                doc = json.load(open(path))
+            except ValueError:
+                continue
+            yield {"op": "img_load", "sweep": True, "args": {"doc": doc, "fixture": os.path.basename(path)}}
         n_ih, n_rh, n_il = int(budget * 0.25), int(budget * 0.25), int(budget * 0.28)
         n_rl = budget - n_ih - n_rh - n_il
         t = F.tables()
@@ -559,6 +584,8 @@ class C10(Prop):
         bad = [va for va in arch_keys(got) if not is_binary(va[1], tbl)]
         if bad:
             return {"kind": "source-arch-key", "observed": {"bad_keys": bad}, "required": "no src / nosrc / unknown arch key after the conversion"}
+        if a.get("collision"):
+            claims, want, got = [], {}, {}                    # outside the claim: only the arch keys and the written document are checked
         for v, arch, K, rec in claims:
             have = got.get(v, {}).get(arch, {}).get(K, {}).get(K)
             if have != rec:
@@ -574,6 +601,7 @@ class C10(Prop):
             return {"kind": "dump-failed", "observed": d, "required": "the converted manifest can be written"}
         written = json.loads(d["ok"])["payload"]["rpms"]
         bad = [va for va in arch_keys(written) if not is_binary(va[1], tbl)]
+        got = real_out["ok"]["payload"]
         if bad or written != got:
             return {"kind": "source-arch-key-written", "observed": {"bad_keys": bad, "written_equals_memory": written == got},
                     "required": "the written document holds the converted mapping and no source architecture key"}
